@@ -141,9 +141,10 @@ Lemma tok_burn_ok cx W acc mint auth amt pdas s m :
   is_writable (cx_metas cx) acc = true -> is_writable (cx_metas cx) mint = true ->
   is_signer (cx_metas cx) auth || pda_signs (cx_prog cx) auth pdas = true ->
   as_token W acc = Ok s -> as_mint W mint = Ok m -> amt <= t_amount s -> t_mint s = mint -> t_owner s = auth ->
+  amt <= m_supply m ->                                   (* mint.supply.checked_sub(amount) *)
   exists W', tok_burn cx W acc mint auth amt pdas = Ok W'.
 Proof.
-  intros Hk Hks Hkd Hka Hws Hwd Hsig Hs Hd Hle Hm Ho.
+  intros Hk Hks Hkd Hka Hws Hwd Hsig Hs Hd Hle Hm Ho Hsup.
   unfold tok_burn, cpi_metas.
   cbn [forallb mkey msigner mwritable mk negb orb andb map].
   rewrite Hk, Hks, Hkd, Hka, Hws, Hwd, Hsig. cbn [require bind andb orb].
@@ -152,7 +153,8 @@ Proof.
   cbn [is_signer is_writable existsb mkey msigner mwritable].
   rewrite !key_eqb_refl, ?andb_false_r, ?andb_true_r, ?orb_true_r, ?orb_false_r. cbn [andb orb require bind].
   destruct (amt =? 0); [eauto|].
-  rewrite ?andb_true_r, ?orb_true_r. cbn [andb orb require bind]. eauto.
+  rewrite ?andb_true_r, ?orb_true_r. cbn [andb orb require bind].
+  apply N.leb_le in Hsup. rewrite Hsup. cbn [require bind]. eauto.
 Qed.
 
 (* ------------------------------------------------------------------------------------------------------------------ *)
@@ -265,6 +267,8 @@ Record distribute_ready (W : world) (e : N) (svc relayer : key) (us ebr : N) (p 
   dr_custody : as_token W (KTok2z (KRdDist e)) = Ok s0 /\ t_owner s0 = KRdDist e /\ t_mint s0 = KMint /\
                floor_share US32_MAX us (d_prepaid_2z d + d_swept_2z d) <= t_amount s0;
   dr_mint : as_mint W KMint = Ok m;
+  (* the mint's supply covers what this leaf may burn (SPL Token: supply.checked_sub) *)
+  dr_supply : floor_share US32_MAX us (d_prepaid_2z d + d_swept_2z d) <= m_supply m;
   (* every recipient's ATA is an initialised 2Z token account (that cannot overflow) *)
   dr_atas : forall x, In x (cr_recipients cr) -> exists t, as_token W (KAta (fst x) KMint) = Ok t /\ t_mint t = KMint /\
                t_amount t + floor_share US32_MAX us (d_prepaid_2z d + d_swept_2z d) < two64;
